@@ -359,12 +359,19 @@ pub fn requests(prop: &str, fl: &str, g: &GraphSpec, thorough: bool, rng: Option
     // the order of the builder's configuration calls (`min/max`, `transpose`, `target`) must not matter: `kind~n`
     let mut v = 0usize;
     for line in l.iter_mut() {
-        if let Some(rest) = line.strip_prefix("search ") {
+        // the root handle obtained in different ways (clone, container lookup, indexing, edge endpoint, search result)
+        if (line.starts_with("search ") || line.starts_with("order ")) && !line.contains('@') && !line.contains('+') {
+            v += 1;
+            if v % 7 == 0 {
+                line.push_str(&format!(" #via={}", ["graph", "index", "edge", "result"][(v / 7) % 4]));
+            }
+        }
+        if let Some(rest) = line.clone().strip_prefix("search ") {
             if !rest.contains('@') {
                 v += 1;
                 if v % 3 != 0 {
                     let (kind, tail) = rest.split_once(' ').unwrap();
-                    *line = format!("search {kind}~{} {tail}", v % 6);
+                    *line = format!("search {kind}~{} {tail}", v % 12);
                 }
             }
         }
